@@ -138,6 +138,18 @@ these builtins return (`count` int, `sigma`/`spread` float, `isPresent` bool, `i
 builtin is declared to return a missing or invalid value. Decided on the regenerated signature table. -/
 theorem gen_sigs_ok : Gen.sigs.all nativeSigOK = true := by decide
 
+/-- **builtins_classified** (fail closed). Every builtin registered in functions.go as it is now (names extracted
+from the source) and every name with a signature in the linked package is either defined by the model and the
+reference themselves (`Lib.nativeFns`), or explicitly an external library call (`Lib.oracleFns`: transcendental
+math, regex, time-zone, float/duration parsing and formatting, rune-set and Unicode string functions,
+`humanBytes`), or explicitly outside the model (`rand`, `now`). A builtin added to functions.go breaks this theorem
+instead of being silently answered by the oracle; a name in none of the lists evaluates to an error in the model. -/
+theorem builtins_classified :
+    (Gen.builtinNames.all fun n => Lib.nativeFns.contains n || Lib.oracleFns.contains n || Lib.unmodelledFns.contains n) = true ∧
+    (Gen.sigs.all fun s => Lib.nativeFns.contains s.name || Lib.oracleFns.contains s.name || Lib.unmodelledFns.contains s.name) = true ∧
+    (Lib.nativeFns.all fun n => Gen.builtinNames.contains n) = true ∧
+    (Lib.oracleFns.all fun n => Gen.builtinNames.contains n) = true := by decide
+
 /-- **agrees_with_reference** — the headline claim. For the operator table and the builtin signatures as
 they are in the source now, any float arithmetic, any regex matcher and any library oracle that returns
 values of the declared types: on EVERY point at which the expression is well typed in the reference typing
